@@ -136,6 +136,15 @@ def cases(tier, seed):
         for red in REDUCERS:
             for fin in ('kogge_stone', 'ripple_add', 'cla_adder'):
                 out.append({'item': 'group', 'ws': ws, 'red': red, 'final': fin})
+    for pairs, adds in (([(1, 1)] * 3, [1]), ([(1, 1)], []), ([], [1, 1, 1]), ([(1, 1), (1, 1)], [1, 1]), ([(1, 2)], [1]), ([], [2]),
+                        ([(2, 2)], []), ([(1, 1)] * 4, [])):
+        for red in REDUCERS:
+            out.append({'item': 'gfma', 'pairs': [list(p) for p in pairs], 'adds': adds, 'red': red})
+    # every small group shape (one operand, all-1-bit operands, ...): the reducers' corner cases
+    for k in range(1, 5 if tier == 'quick' else 7):
+        for ws in itertools.combinations_with_replacement((1, 2, 3) if tier == 'quick' else (1, 2, 3, 5), k):
+            for red in REDUCERS:
+                out.append({'item': 'group', 'ws': list(ws), 'red': red, 'final': ('kogge_stone', 'ripple_add')[(k + sum(ws)) % 2]})
     M = 6 if tier == 'quick' else 8
     for wa, wb in itertools.product(range(1, M + 1), repeat=2):
         for red in REDUCERS:
